@@ -316,13 +316,14 @@ func (w *World) computeSig(root *ssa.Function) funcSig {
 			if swap {
 				t, f = f, t
 			}
-			side := func(s *ssa.BasicBlock) []string {
-				if len(s.Preds) != 1 {
-					return []string{}
-				}
-				return w.effectsIn(fn, func(x *ssa.BasicBlock) bool { return x == s || s.Dominates(x) }, own, true)
+			// what runs only on one side: the blocks that side can reach and the other side cannot (for `a || b` the
+			// then-block has two predecessors, so dominance alone would see nothing)
+			side := func(s, o *ssa.BasicBlock) []string {
+				rs, ro := blockReach(s, nil), blockReach(o, nil)
+				rs[s], ro[o] = true, true
+				return w.effectsIn(fn, func(x *ssa.BasicBlock) bool { return rs[x] && !ro[x] }, own, true)
 			}
-			ts, fs := side(t), side(f)
+			ts, fs := side(t, f), side(f, t)
 			// drop what both sides do
 			both := map[string]bool{}
 			for _, x := range ts {
